@@ -16,7 +16,7 @@ def main():
     pls = [0, 1, 15, 16, 17, 31, 33, 63, 64, 65, 127, 129, 255, 257, 271, 513, 1100] if not thorough else sorted(set(list(range(0, 100)) + [127, 128, 129, 255, 256, 257, 271, 511, 513, 1023, 1025, 1100]))
     tuples = sorted(set([(12, pl, al, ts) for pl in pls for al in (0, 5) for ts in (12, 16)] + [(nl, pl, 17, ts) for nl in (1, 13, 16, 129) for pl in (0, 17, 271) for ts in (12, 14, 16)]))
     ck.bounds.append('openAsm / Open: %d length tuples (plaintext 0..%d, tag 12..16, nonce 1..129), keys {sample, 0, 1s, seeded}; authentic messages = sealed by the specification with up to 3+2 symbolic data bytes; received tag fully symbolic for the verdict; all ciphertext/aad bits symbolic for the bit-flip claim on short messages' % (len(tuples), pls[-1]))
-    ck.outside.append('keys are concrete (see C06); forgeries that collide on the tag are not excluded (GCM security, not a code property); nonce bit flips (the initial counter passes through SM4, not linear); arm64')
+    ck.outside.append('keys are concrete (see C06); forgeries that collide on the tag are not excluded (GCM security, not a code property); nonce bit flips (the initial counter passes through SM4, not linear)')
     fails = {}
     t0 = time.time()
 
@@ -240,6 +240,18 @@ func TestVerifReplay(t *testing.T) {
     if not fails:
         ck.record('open_authentic_only', 'proved', '%d symbolic runs, %d solver queries: authentic messages are accepted and decrypt to the plaintext; for an arbitrary received tag the verdict is exactly equality with the standard tag over tagSize bytes; nothing is stored to dst on reject; every single-bit change of ciphertext/aad changes the expected tag; short ciphertexts are refused before any memory access' % (ck.states, ck.queries),
                   ck.bounds[0], secs, sample=dict(nonce=12, ct=33 + 12, aad=5, tag=12, claim='openAsm returns 1 <=> received tag == SP800-38D tag[:12]; dst written only then'))
+    # ------------------------------------------------------------ arm64: Go glue (go/ssa GOARCH=arm64) + NEON leaf routines (arm64 listing)
+    import arm64lib
+    a64fails = {}
+    t_a64 = time.time()
+    try:
+        a64env = arm64lib.Env('c07')
+        n_a64 = arm64lib.c07(ck, a64env, lambda k, d, w=None: a64fails.setdefault(k, []).append((d, w)), thorough, KEYS)
+    except (asmsym.AsmUnsupported, Unsupported, RuntimeError) as ex:
+        n_a64 = 0
+        a64fails.setdefault('a64:unsupported', []).append(('arm64 part not completed: %s' % ex, None))
+    if not arm64lib.report(ck, a64fails):
+        ck.record('arm64', 'proved', 'arm64 Open accepts exactly the SP 800-38D tag (received tag fully symbolic), returns the sealed plaintext, (nil, error) otherwise (%d cases)' % n_a64, secs=time.time() - t_a64)
     ck.finish()
 
 
